@@ -112,6 +112,11 @@ int strIn(const std::string &s) {
 }
 void strOut(std::string &s, int n) { Guard g; s = pattern(n); }
 void strInout(std::string &s) { Guard g; s = s + "+x"; }
+int strPtrIn(const std::string *s) { Guard g; return strIn(*s) + 7; }
+int strValIn(std::string s) { Guard g; return strIn(s) + 9; }
+const char *charRetLen(int n) { Guard g; return charRet(n); }
+const char *charRetNull(int n) { Guard g; return n < 0 ? 0 : charRet(n); }
+void vecIotaD(std::vector<double> &v) { Guard g; v.clear(); for (int i = 0; i < 5; i++) v.push_back(i + 0.5); }
 void charOut(char *dest, const char *src) { Guard g; std::strcpy(dest, src); }
 const char *charRet(int n) {
     Guard g;
